@@ -126,6 +126,9 @@ impl Monitor {
     }
 
     pub fn observe(&mut self, ctx: &mut Ctx, item: &Item, family: &str) {
+        // every 64th time something fails on this thread first (among other things a user iterator that
+        // panics inside the public string templates the renderer shares with the other formatters)
+        something_fails_first_every(64);
         ctx.report.eval();
         ctx.report.bump(&format!("family.{}", family));
         ctx.report.bump(&format!("namespace.{}", item.namespace()));
